@@ -286,6 +286,9 @@ def r13d(ctx, run):
             allowed = [k for k in ALLOWED_LOSSY if owner == k or owner.endswith("::" + k) or k.endswith(owner)]
             if allowed:
                 run.exempt(c.site(), "%s calls the lossy equivalence" % owner, ALLOWED_LOSSY[allowed[0]])
+            elif fn.crate == "codegen":
+                # the code generator asks whether two ACCEPTED types share a representation; it cannot make the checker accept anything
+                run.exempt(c.site(), "%s calls the lossy equivalence" % owner, "code generation: a question about representations, asked after acceptance was decided")
             else:
                 run.finding(owner, "lossy-call", c.file, c.ln,
                             "%s calls is_functionally_equivalent_to with a flag that is not the constant false; only cast/codegen sites may lose distinction" % owner)
